@@ -86,7 +86,7 @@ def tlc_stats(out):
     return int(m.group(2)), int(m.group(1))
 
 
-def tlc(spec, cfg_text, wd, workers=4, env=None, timeout=600, name=None, extra=None):
+def tlc(spec, cfg_text, wd, workers=4, env=None, timeout=600, name=None, extra=None, allow_error=False):
     """Run TLC on spec (module file name in /verif/spec) with the given cfg text."""
     name = name or os.path.splitext(spec)[0]
     cfg = os.path.join(wd, name + ".cfg")
@@ -102,7 +102,7 @@ def tlc(spec, cfg_text, wd, workers=4, env=None, timeout=600, name=None, extra=N
     out = p.stdout
     if p.returncode == 124:
         raise ToolError(f"TLC timed out after {timeout}s on {spec} ({name})")
-    if "Error:" in out and "RESULT" not in out and "REPLAY" not in out:
+    if "Error:" in out and "RESULT" not in out and "REPLAY" not in out and not allow_error:
         raise ToolError(f"TLC error on {spec} ({name}):\n" + out[-3000:])
     return out
 
